@@ -476,6 +476,9 @@ func (s *nodePrivilegedService) FindMissingMessages(ctx context.Context, req *no
 	emitterAddress := vaa.Address{}
 	copy(emitterAddress[:], b)
 
+	if req.EmitterChain > math.MaxUint16 || req.TargetChain > math.MaxUint16 {
+		return nil, status.Errorf(codes.InvalidArgument, "invalid chain id")
+	}
 	emitterChain := vaa.ChainID(req.EmitterChain)
 	targetChain := vaa.ChainID(req.TargetChain)
 	ids, first, last, err := s.db.FindEmitterSequenceGap(vaa.VAAID{
